@@ -752,6 +752,8 @@ pub fn run_survive(tokens: &[&str]) -> String {
         let addr = listener.local_addr().unwrap();
         let setups = Arc::new(std::sync::atomic::AtomicUsize::new(0));
         let (s2, end2, proto2) = (setups.clone(), end.clone(), proto.clone());
+        let hello_mode = end == "h";
+        let hello2 = hello_mode;
         let server = tokio::spawn(async move {
             let fail_at = n;
             let mk = move |i: usize| -> io::Result<bool> {
@@ -767,7 +769,14 @@ pub fn run_survive(tokens: &[&str]) -> String {
                 let on_connected = |stream, a| {
                     let i = s2.fetch_add(1, std::sync::atomic::Ordering::SeqCst);
                     let d = mk(i);
+                    let hello = hello2;
                     async move {
+                        let mut stream: tokio::net::TcpStream = stream;
+                        if hello {
+                            // a connection setup that really awaits something from its peer (a hello byte, a TLS handshake ...)
+                            let mut b = [0u8; 1];
+                            stream.read_exact(&mut b).await?;
+                        }
                         match d {
                             Ok(true) => tokio_modbus::server::tcp::accept_tcp_connection(stream, a, |x| Ok(Some(RuleService { _addr: x }))),
                             Ok(false) => Ok(None),
@@ -780,7 +789,13 @@ pub fn run_survive(tokens: &[&str]) -> String {
                 let on_connected = |stream, a| {
                     let i = s2.fetch_add(1, std::sync::atomic::Ordering::SeqCst);
                     let d = mk(i);
+                    let hello = hello2;
                     async move {
+                        let mut stream: tokio::net::TcpStream = stream;
+                        if hello {
+                            let mut b = [0u8; 1];
+                            stream.read_exact(&mut b).await?;
+                        }
                         match d {
                             Ok(true) => tokio_modbus::server::rtu_over_tcp::accept_tcp_connection(stream, a, |x| Ok(Some(RuleService { _addr: x }))),
                             Ok(false) => Ok(None),
@@ -797,7 +812,10 @@ pub fn run_survive(tokens: &[&str]) -> String {
             }
             let mut got = vec![];
             let mut tmp = [0u8; 512];
-            while got.len() < f.len() {
+            // the RuleService echoes WriteSingleRegister: as many bytes come back as the request has (a leading hello byte,
+            // 0x48, is consumed by the connection setup and not echoed)
+            let want = if f.first() == Some(&0x48) && f.len() % 2 == 1 { f.len() - 1 } else { f.len() };
+            while got.len() < want {
                 match tokio::time::timeout(crate::watchdog(), s.read(&mut tmp)).await {
                     Ok(Ok(0)) | Ok(Err(_)) | Err(_) => break,
                     Ok(Ok(m)) => got.extend_from_slice(&tmp[..m]),
@@ -807,6 +825,30 @@ pub fn run_survive(tokens: &[&str]) -> String {
         }
         let mut conns = vec![];
         let mut firsts = vec![];
+        if hello_mode {
+            // all peers connect first (their setups overlap: each on_connected awaits its peer's hello byte while the later
+            // connections are already waiting to be accepted); a little later the hellos and first requests follow, in order
+            for _ in 0..n {
+                conns.push(tokio::net::TcpStream::connect(addr).await.unwrap());
+                tokio::time::sleep(Duration::from_millis(15)).await;
+            }
+            for (k, s) in conns.iter_mut().enumerate() {
+                let mut f = vec![0x48u8];
+                f.extend_from_slice(&plan[k].0);
+                let mut got = exchange(s, &f).await;
+                // (exchange waits for as many bytes as it sent; the reply is one byte shorter than hello + request)
+                got.truncate(plan[k].0.len());
+                firsts.push(got);
+            }
+            let mut parts = vec![];
+            for (k, s) in conns.iter_mut().enumerate() {
+                let second = exchange(s, &plan[k].1).await;
+                parts.push(format!("first={} second={}", hex(&firsts[k]), hex(&second)));
+            }
+            let st = if server.is_finished() { "ENDED" } else { "LISTENING" };
+            server.abort();
+            return format!("serve={} | {}", st, parts.join(" | "));
+        }
         for k in 0..n {
             let mut s = tokio::net::TcpStream::connect(addr).await.unwrap();
             firsts.push(exchange(&mut s, &plan[k].0).await);
